@@ -100,8 +100,10 @@ func buildGrammar() (tops []top, productions int) {
 	allNTs = nil
 	NUM := T("number", "1", "0", n32, n32o, n63, n63o, n64o)
 	SET := T("set", "1", "1:*", "*", "$", "0", "1:0", n32, "1:"+n32, "2,4:6")
-	STR := T("nstring", `"q"`, "A", lit1, lit81, "NIL")
-	MBOX := T("mailbox", "INBOX", `"inbox"`, "{5}\r\nINBOX", `"a&-b"`, `"&"`, `"&AOk-"`, "NIL", lit81, "other")
+	// buffered literals whose announced size is a boundary number or simply far more than what
+	// follows (and than the worker's address-space limit): 2^62, 2^63-1, 16 GiB
+	STR := T("nstring", `"q"`, "A", lit1, lit81, "NIL", "{4611686018427387904}\r\nabc", "{"+n63+"}\r\nabc", "{17179869184}\r\nabc")
+	MBOX := T("mailbox", "INBOX", `"inbox"`, "{5}\r\nINBOX", `"a&-b"`, `"&"`, `"&AOk-"`, "NIL", lit81, "other", "{4611686018427387904}\r\nabc", "{17179869184}\r\nabc")
 	FLAG := T("flag", `\Seen`, `\*`, "kw", `\`, "$Junk", `\\`, `\Recent`)
 	DELIM := T("delim", `"/"`, "NIL", `""`, `"ab"`, "A", "\"\xc3\xa9\"", "\"\xff\"", `"\\"`)
 	DATE := T("date-time", `"17-Jul-1996 02:44:25 -0700"`, `" 7-Jul-1996 02:44:25 -0700"`, `"bad"`, "NIL", `""`, "A")
